@@ -23,7 +23,7 @@ from ..kernel import (Held, Violation, call, identical, is_exc, short,
 
 PROP = 'C15'
 MUTATORS = {'use_hier', 'set_n_ids', 'controller', 'sample', 'fix_elsewhere',
-            'user_regimen'}
+            'user_regimen', 'set_regimen'}
 OBSERVERS = {'sample'}
 BUDGET = {'quick': {'runs': 1500, 'wall': 75},
           'thorough': {'runs': 60000, 'wall': 1500}}
@@ -407,6 +407,7 @@ def run(scenario, world):
     triples = []
     prev = 'init'
     fresh_cache = {}
+    regimen_ops = []
     n_checked = 0
     user_regimen = None
     for step, op in enumerate(scenario['ops']):
@@ -455,8 +456,25 @@ def run(scenario, world):
             world.probe('controller_cycle')
         elif o == 'fix_elsewhere':
             names = main.other_pred.get_parameter_names()
+            if not names:
+                continue        # everything is fixed already
             r = call(main.other_pred.fix_parameters,
                      {names[op['idx'] % len(names)]: op['value']})
+        elif o == 'set_regimen':
+            # the regimen is (re)set through a predictive model: part of the
+            # net configuration, replayed on the fresh stack below
+            target = main.target(op['on'])
+            if target is None:
+                continue
+            r = call(target.set_dosing_regimen, op['dose'], start=op['start'],
+                     duration=op['duration'], period=op.get('period'))
+            if is_exc(r):
+                world.probe('regimen_rejected')
+                continue
+            regimen_ops.append(op)
+            world.probe('regimen_set_through_predictive_model')
+            triples.append((prev, 'set_regimen', op['on']))
+            prev = 'set_regimen'
         elif o == 'user_regimen':
             r = call(main.m.set_dosing_regimen, op['dose'],
                      start=op['start'], duration=op['duration'])
@@ -529,6 +547,12 @@ def run(scenario, world):
             # reference: a fresh stack that has seen nothing
             fkey = 'fresh'
             fresh = Stack(scenario)
+            for rop in regimen_ops:
+                ft_ = fresh.target(rop['on'])
+                if ft_ is not None:
+                    ft_.set_dosing_regimen(
+                        rop['dose'], start=rop['start'],
+                        duration=rop['duration'], period=rop.get('period'))
             ftarget = None
             if kind in ('cpp', 'cpred'):
                 # the controller's predictive model carries whatever regimen
@@ -736,6 +760,20 @@ def generate(rng, index, tier):
     n_ops = rng.randint(2, 20 if tier == 'thorough' else 10)
     kinds = ['pred', 'pp', 'pp', 'prior', 'post', 'pam', 'cpp', 'cpred']
     grid = sorted(set(round(rng.uniform(0.2, 6), 1) for _ in range(4)))
+    if has_route and rng.random() < 0.25:
+        # a dose-finding loop on one averaged / posterior / prior predictive
+        # model: sample, change the regimen through that model, sample again
+        # over the same times
+        on_ = rng.choice(['pam', 'pam', 'post', 'prior'])
+        a_ = rng.randint(0, 2)
+        for _ in range(2):
+            ops.append({'op': 'set_regimen', 'on': on_,
+                        'dose': round(rng.uniform(0.5, 3), 2),
+                        'start': rng.choice([0, 0.5, 1.0]),
+                        'duration': rng.choice([0.01, 0.1]),
+                        'period': rng.choice([None, 1, 2])})
+            ops.append({'op': 'sample', 'on': on_, 'args': a_,
+                        'n_samples': rng.randint(1, 4)})
     for _ in range(n_ops):
         r = rng.random()
         if r < 0.14:
@@ -765,7 +803,15 @@ def generate(rng, index, tier):
         elif r < 0.47:
             ops.append({'op': 'fix_elsewhere', 'idx': rng.randint(0, 9),
                         'value': round(rng.uniform(0.3, 1.5), 2)})
-        elif r < 0.52 and has_route:
+        elif r < 0.54 and has_route:
+            ops.append({'op': 'set_regimen',
+                        'on': rng.choice(['pam', 'pam', 'post', 'prior',
+                                          'pred', 'pp']),
+                        'dose': round(rng.uniform(0.5, 3), 2),
+                        'start': rng.choice([0, 0.5, 1.0]),
+                        'duration': rng.choice([0.01, 0.1]),
+                        'period': rng.choice([None, 1, 2])})
+        elif r < 0.59 and has_route:
             ops.append({'op': 'user_regimen',
                         'dose': round(rng.uniform(0.5, 3), 2),
                         'start': rng.choice([0, 0.5]),
